@@ -890,6 +890,23 @@ class C11(Spec):
                 if pos:
                     st.insert(pos[0] + 1, {"a": "SelectRandomly", "kw": {"n": r.randint(1, 3)}})
                     break
+        elif sweep and len(plan["feed"]["tickers"]) >= 3 and not any(c["k"] == "S" for c in plan["tree"]["children"]):
+            # ... and the places where weights travel from algo to algo as dicts keyed by name: dated targets over changing subsets,
+            # so that several held names are absent from the vector LimitDeltas completes (whatever order it visits them in decides
+            # the order of the trades and with it the float summation of cash)
+            tick, dts = plan["feed"]["tickers"], plan["feed"]["dates"]
+            rows = sorted(r.sample(dts, min(len(dts), r.randint(3, 6))))
+            data = []
+            for _ in rows:
+                sub = r.sample(tick, r.randint(1, max(1, len(tick) - 2)))
+                raw = [r.random() + 0.05 for _ in sub]
+                ws = {n: round(x / sum(raw), 4) for n, x in zip(sub, raw)}
+                data.append([ws.get(n) for n in tick])
+            plan.setdefault("extra", {})["hsw"] = drive_engine._frame(tick, data, rows=rows)
+            plan["tree"]["algos"] = [{"a": "WeighTarget", "args": ["hsw"]}, {"a": "LimitDeltas", "kw": {"limit": r.choice([0.05, 0.1, 0.3])}}, {"a": "Rebalance"}]
+            plan["tree"]["children"] = []
+            plan["cfg"]["integer"] = False
+            plan.setdefault("fired", {})["weights_dict_order_plan"] = 1
         # spies inside the stacks are the yield points of the interleaving
         k = 0
         for _p, s in drive_engine.trees.strategies(plan["tree"]):
